@@ -23,6 +23,7 @@ RULE = (
     "is checked for all g in B_2 / class representatives of B_3. Non-trivial: >=1 optimiser step applied, a non-filter leaf moved, "
     "g != e; distinct by (architecture, optimiser, loss, batch, epochs)."
 )
+RULE += " Also: fixed histories (pseudo-types through normalisation, scalar+vector, a group-averaged conventional network, ONE TrainLoss object shared by a baseline run and the equivariant run), amplified-displacement oracle."
 ASSUMPTIONS = ["C07's tolerances", "bank ratio tolerance 1e-5", "one CPU device (pmap over a single device)"]
 ANCHORS = ["ginjax.ml.training:train_step", "ginjax.ml.training:train", "ginjax.ml.training:get_batches", "ginjax.ml.layers:ConvContract.individual_convolve"]
 MIN_NONTRIVIAL = {"quick": 5, "thorough": 80}
